@@ -165,6 +165,13 @@ class ShapeDomain(EventsMixin, Domain):
       return v.d
     if name == 'x' and v.origin == ('optres',):
       return v.d
+    if v.origin and v.origin[0] == 'extinst':
+      cls = v.origin[1].rsplit('.', 1)[-1]
+      if cls == 'PCA' and name == 'components_':
+        return arr(v.origin[2] if v.origin[2] is not None else '?', 'd')
+      if cls == 'LinearDiscriminantAnalysis' and name == 'scalings_':
+        return arr('d', 'classes-1')
+      return UNK
     if name == 'size' and d is not None:
       return ('size', d)
     return UNK
@@ -380,6 +387,11 @@ class ShapeDomain(EventsMixin, Domain):
         return arr(d0[0], d0[0])
       if len(d0) == 2:
         return arr(d0[0])
+    if name in ('PCA', 'LinearDiscriminantAnalysis', 'KMeans',
+                'NearestNeighbors'):
+      k = kwargs.get('n_components')
+      return V(UNK, origin=('extinst', dotted,
+                            dimval(k) if k is not None else None))
     if name == 'minimize':
       x0 = kwargs.get('x0') or (args[1] if len(args) > 1 else None)
       return V(x0.d if x0 is not None else UNK, origin=('optres',))
@@ -424,6 +436,9 @@ class ShapeDomain(EventsMixin, Domain):
     d = dims_of(recv.d)
     if recv.origin and recv.origin[0] == 'extinst':
       return V(UNK, origin=recv.origin)
+    if name in ('randn', 'rand', 'random_sample') and args:
+      ds = [dimval(a) for a in args]
+      return ('arr', tuple(x if x is not None else '?' for x in ds))
     if d is None:
       return UNK
     if name == 'dot' and len(args) == 1:
